@@ -91,10 +91,13 @@ static void brent(ESL_MIN_CFG *cfg, double *ori, double *dir, int n,
  *            but the final <x>, <*opt_fx>, and <*opt_dat> are still provided;
  *            maybe they're good enough, caller can decide.
  *
- * Throws:    <eslERANGE> if the minimum is not finite, which may
- *            indicate a problem in the implementation or choice of <*func()>.
+ *            <eslERANGE> if the minimum is not finite, which may
+ *            indicate a problem in the implementation or choice of <*func()>,
+ *            or data that <*func()> cannot be evaluated on (a fit to a
+ *            user's data that overflows, for example). <*opt_fx> is
+ *            eslINFINITY, and <x> is undefined.
  *
- *            <eslEMEM> on allocation failure.
+ * Throws:    <eslEMEM> on allocation failure.
  *            On thrown exceptions, <*opt_fx> is eslINFINITY, and <x> is undefined.
  *
  * Xref:      STL9/101.
@@ -131,7 +134,7 @@ esl_min_ConjugateGradientDescent(ESL_MIN_CFG *cfg, double *x, int n,
   /* Bail out if the function is +/-inf or nan: this can happen if the caller
    * has screwed something up, or has chosen a bad start point.
    */
-  if (! isfinite(oldfx)) ESL_XEXCEPTION(eslERANGE, "minimum not finite");
+  if (! isfinite(oldfx)) { status = eslERANGE; goto ERROR; }
 
   if (dfunc)
     {
@@ -196,7 +199,7 @@ esl_min_ConjugateGradientDescent(ESL_MIN_CFG *cfg, double *x, int n,
       /* Bail out if the function is now +/-inf: this can happen if the caller
        * has screwed something up.
        */
-      if (! isfinite(fx)) ESL_XEXCEPTION(eslERANGE, "minimum not finite");
+      if (! isfinite(fx)) { status = eslERANGE; goto ERROR; }
 
       /* Find the negative gradient at that point (temporarily in w1) */
       if (dfunc != NULL) 
